@@ -12,6 +12,16 @@ CHECKS = {
          'Bounded exhaustive enumeration of the real codec (Covenant::from_bytes/to_bytes/from_ops/to_ops/hash/weight, OpCode::encode) against an independent table-driven reference codec: every byte string up to the bound is decoded by both; accepted strings must re-encode to themselves; every representable instruction list must round-trip. This is the right level because the property is a statement about a finite-state codec whose every branch is reached by strings of <= 3 bytes plus per-opcode operand-length classes.',
          'Trusted: the reference codec table in harness/src/refvm.rs (transcribed from DESIGN.md appendix C), blake3, the harness. Strings longer than the bound are covered only through the per-opcode operand-length classes.',
          'DESIGN.md §4 C12'),
+ 'C17': ('E3-parameter-grid',
+         'exhaustive sweep of the finite grid delta in [-128,127] x fee multipliers {0..300 (thorough 0..4096)} u {2^k-1,2^k,2^k+1 : 8<=k<=70} x {before, at, after the TIP-901 switch on mainnet/testnet/custom} through the real next_unsealed().seal(action) on fabricated states, plus 300-block runs of extreme deltas',
+         'Bounded exhaustive sweep of the real seal path over the whole delta range and a boundary-dense set of multipliers on states fabricated with SealedState::from_block at the relevant heights; every result is compared with the specified step computed in arbitrary-precision arithmetic; a panic is a violation. Right level: the behaviour is a pure function of (multiplier, delta, TIP-901 flag) and its failure modes sit at arithmetic boundaries, which the grid enumerates.',
+         'Trusted: fabricated parent states (from_block with a synthetic parent header) behave like honestly reached states for the fee-multiplier path; BigInt arithmetic of the num crate. Multipliers above 2^70 are outside the bound.',
+         'DESIGN.md §4 C17'),
+ 'C14': ('E3-parameter-grid',
+         'exhaustive enumeration of all stake distributions with n <= 4 (thorough n <= 6) stakers and weights {1,2,3}, several stakes per key, stakes outside the epoch, x every subset of signers x {valid, bit-flipped, empty, zero, oversized, wrong-message, swapped, foreign} signature variants through the real SealedState::confirm',
+         'Bounded exhaustive enumeration through the real confirm(): every subset of signers of every small stake distribution, with the threshold oracle (>2/3 confirms, <2/3 never), the invalid-signature oracle and monotonicity over all subset pairs. Right level: confirm is a pure function of (stake set, epoch, proof); its decision boundary is reached with <= 6 stakers of weight <= 3.',
+         'Trusted: Ed25519 (tmelcrypt) for producing valid signatures with fixed keys; states in epochs 1 and 2 are fabricated at heights 200000/400000. More than 6 stakers and weights other than {1,2,3,2^100} are outside the bound.',
+         'DESIGN.md §4 C14'),
 }
 NOT_APPLICABLE = {}
 DEFAULT_NA = 'check not built yet (work in progress; see DESIGN.md appendix B)'
